@@ -7,7 +7,7 @@ namespace Numqi.Driver.C11
 open Numqi Numqi.Driver.C03
 
 section
-variable {α : Type} [Add α] [Mul α] [Zero α] [One α] [Conj α]
+variable {α : Type} [Add α] [Sub α] [Neg α] [Mul α] [Zero α] [One α] [Conj α]
 
 def handleR (car : Carrier α) (args : List String) : String :=
   match args with
